@@ -401,6 +401,13 @@ def wait(fs, timeout=None, return_when=ALL_COMPLETED):
     fids = sorted(f._twz_fid for f in fs)
     if Settings.controlled and not ex.bypassed and not ex.closed:
         ex.settle()
+        if timeout is not None and ex.rng.random() < 0.5 and not any(f.done() for f in fs):
+            # the scheduler asked for a TIMED wait: "nothing finished within the timeout" is a legal outcome, injected here
+            # without spending the wall-clock time (parked probes cannot finish on their own)
+            REACH["WAIT_thread_timeout_injected"] += 1
+            ev("WAIT_CALL", token=ex.token, wkind="thread", futs=fids, rw=return_when, done_at_call=[], timed=timeout)
+            ev("WAIT_RET", token=ex.token, wkind="thread", done=[], timeout_expired=True)
+            return cfb.DoneAndNotDoneFutures(set(), set(fs))
     REACH["WAIT_thread"] += 1
     ev(
         "WAIT_CALL",
@@ -485,6 +492,12 @@ async def async_wait(fs, *, timeout=None, return_when=ALL_COMPLETED):
                 break
             await asyncio.sleep(0)
         ex.settle()
+        if timeout is not None and ex.rng.random() < 0.5 and not any(t.done() for t in tasks):
+            REACH["WAIT_async_timeout_injected"] += 1
+            ev("WAIT_CALL", token=ex.token, wkind="async", tasks=tids, rw=return_when, done_at_call=[], timed=timeout)
+            ev("WAIT_RET", token=ex.token, wkind="async", done_tasks=[], timeout_expired=True)
+            await asyncio.sleep(0)
+            return set(), set(fs)
     REACH["WAIT_async"] += 1
     ev(
         "WAIT_CALL",
